@@ -531,9 +531,14 @@ Print Assumptions C10_write_mdat_modes_differ.
 Definition e2e_hs : list trak_h :=
   [mkTH 1 (mkTI 2 500 (mkTables [4] [10] None (mkStsc [mkEntry 1 2 1] 1 []) (mkStsz 3 4 []) None (Some [150; 250]) None None));
    mkTH 0 (mkTI 1 1000 ex_tb)].
-Example ex_e2e : Forall (trak_wf ex_file) (map th_trak e2e_hs) /\ distinct_ids e2e_hs /\
-  exists sh rg, crop_mp4_file e2e_hs 45 60 = Ok (50, 1000, (sh, rg, [3; 4], 364)) /\
-                60 + sumN (map stbl_var_size sh) = 364 /\ map stbl_var_size sh = [116; 188].
+Definition e2e_run_ok : bool :=
+  match crop_mp4_file e2e_hs 45 60 with
+  | Ok (et, ets, (sh, rg, ks, swm)) =>
+    (et =? 50) && (ets =? 1000) && (swm =? 364) && (60 + sumN (map stbl_var_size sh) =? 364) &&
+    (match ks with [3; 4] => true | _ => false end) && (match map stbl_var_size sh with [116; 188] => true | _ => false end)
+  | _ => false
+  end.
+Example ex_e2e : Forall (trak_wf ex_file) (map th_trak e2e_hs) /\ distinct_ids e2e_hs /\ e2e_run_ok = true.
 Proof.
   split.
   - constructor; [|constructor; [|constructor]].
@@ -543,7 +548,7 @@ Proof.
       split; vm_compute; [intros H; discriminate H|reflexivity].
   - split.
     { unfold distinct_ids. cbn. constructor; [intros [H|[]]; discriminate H|]. constructor; [intros []|constructor]. }
-    eexists. eexists. vm_compute. repeat split.
+    vm_compute. reflexivity.
 Qed.
 Theorem C10_crop_end_to_end :
   forall file zeof startPos large payloadLen hs ms rest pre et ets shifted ranges ks swm outf,
@@ -562,3 +567,24 @@ Theorem C10_crop_end_to_end :
     Forall2 (out_track file outf (lenN pre) (lenN (out_bytes file ranges)) et ets) (map th_trak hs) shifted.
 Proof. exact crop_end_to_end. Qed.
 Print Assumptions C10_crop_end_to_end.
+
+(* ... and with the input mdat decoded into memory (File.Mdat.Data, MdatBox.CopyData's slice branch = C08's mem_slice): the
+   same conclusion when every byte range starts inside the input mdat's payload (range_in_mdat; CopyData refuses others) *)
+Theorem C10_crop_end_to_end_mem :
+  forall file zeof startPos large payloadLen hs ms rest pre et ets shifted ranges ks swm outf,
+  Forall (trak_wf file) (map th_trak hs) -> distinct_ids hs ->
+  4611686018427387904 + 2 * total_bytes (map th_trak hs) < 18446744073709551616 ->
+  C08Spec.box_in_file file startPos large payloadLen = true ->
+  crop_mp4_file hs ms rest = Ok (et, ets, (shifted, ranges, ks, swm)) ->
+  Forall (range_in_mdat startPos large payloadLen) ranges ->
+  lenN pre = rest + sumN (map stbl_var_size shifted) ->
+  lenN pre + mdat_out_hdr + 2 * total_bytes (map th_trak hs) < 18446744073709551616 ->
+  crop_mp4_output file zeof (C08Model.mdat_mem file startPos large payloadLen) pre ranges = Ok outf ->
+  exists ref hdr, ref_choice hs ref /\ ets = ti_ts ref /\ swm = lenN pre /\
+    first_sync_from (ti_tb ref) (u64 (ms * ti_ts ref) / 1000) et /\
+    outf = pre ++ hdr ++ out_bytes file ranges /\
+    hdr = C08Model.be32 (lenN (out_bytes file ranges) + 8) ++ C08Model.name_mdat /\
+    lenN (out_bytes file ranges) + 8 < 4294967296 /\
+    Forall2 (out_track file outf (lenN pre) (lenN (out_bytes file ranges)) et ets) (map th_trak hs) shifted.
+Proof. exact crop_end_to_end_mem. Qed.
+Print Assumptions C10_crop_end_to_end_mem.
